@@ -59,8 +59,38 @@ def malformed_sigs(rng, s, sk, m, tier):
     return good, out
 
 
+def identity_sig_scenarios(rng):
+    """signer pairs whose keys cancel (a, r-a) on one message: the honest aggregate is the IDENTITY signature c0 00..00, which
+    the POP suite accepts; every non-canonical spelling of the identity (flag bits in the second word, a-flag) must be refused.
+    Also key pairs outside the subgroup whose cofactor components cancel. (tag, api, pks, msgs-or-msg, sig, expected)"""
+    from props.blsutil import enc_g1
+    from py_ecc.bls import G2ProofOfPossession as POP
+    a = rng.randrange(1, O.BLS_R)
+    m = b"msg"
+    pks = [pk_of(a), pk_of(O.BLS_R - a)]
+    inf = enc_g2(None)
+    out = [("identity-sig-canonical", "agg", pks, [m, m], inf, True)]
+    for f in (0x20, 0x40, 0x80, 0xa0, 0xe0):
+        out.append((f"identity-sig-word2-flags-{f:02x}", "agg", pks, [m, m], inf[:48] + bytes([f]) + inf[49:], False))
+    out.append(("identity-sig-a-flag", "agg", pks, [m, m], bytes([0xe0]) + inf[1:], False))
+    out.append(("identity-sig-no-c-flag", "agg", pks, [m, m], bytes([0x40]) + inf[1:], False))
+    b = rng.randrange(1, O.BLS_R)
+    for T in (O.torsion_g1(rng), (O.Fp(0, P), O.Fp(2, P))):
+        pk1 = enc_g1(O.aff_add(O.g1(a), T))
+        pk2 = enc_g1(O.aff_add(O.g1(b), O.aff_neg(T)))
+        sig = POP.Sign((a + b) % O.BLS_R or 1, m)
+        out.append(("torsion-cancelling-keys", "fast", [pk1, pk2], m, sig, False))
+        out.append(("torsion-cancelling-keys", "agg", [pk1, pk2], [m, m], sig, False))
+    return out
+
+
 def cases(rng, tier):
     cs = []
+    for tag, api, pks, ms, sg, _ in identity_sig_scenarios(rng):
+        if api == "agg":
+            cs.append(Case("bls.AggregateVerify", ["pop", tbl(pks), tbl(ms), tb(sg)], tags=(tag,)))
+        else:
+            cs.append(Case("bls.FastAggregateVerify", [tbl(pks), tb(ms), tb(sg)], tags=(tag,)))
     sk, goodpk, keys = malformed_keys(rng, tier)
     for tag, k in keys:
         cs.append(Case("bls.KeyValidate", [tb(k)], tags=(tag,)))
@@ -183,8 +213,32 @@ def list_pred(s, pks, ms, agg, tag):
     return (not bad, f"'{tag}' suite={s}: {bad}")
 
 
+def scenario_pred(tag, api, pks, ms, sg, want):
+    from py_ecc.bls import G2ProofOfPossession as POP
+    try:
+        got = POP.AggregateVerify(pks, ms, sg) if api == "agg" else POP.FastAggregateVerify(pks, ms, sg)
+    except Exception as e:  # noqa: BLE001
+        return (False, f"'{tag}': raised {type(e).__name__}")
+    bad = []
+    if got is not want:
+        bad.append(f"returned {got}, expected {want}")
+    if got and not (all(_classify_key(k) for k in pks) and _classify_sig(sg) and _canonical_sig(sg)):
+        bad.append("accepted although a key or the signature is not a canonical in-subgroup encoding")
+    return (not bad, f"'{tag}' ({api}): {bad}")
+
+
+def _canonical_sig(sg):
+    try:
+        S = O.zcash_decompress_g2(int.from_bytes(sg[:48], "big"), int.from_bytes(sg[48:], "big"))
+    except ValueError:
+        return False
+    return enc_g2(S) == sg
+
+
 def predicates(rng, tier, only=None):
     ps = []
+    for sc in identity_sig_scenarios(rng):
+        ps.append(Pred("identity-and-torsion-scenarios", scenario_pred, sc))
     sk, goodpk, keys = malformed_keys(rng, tier)
     for tag, k in keys:
         ps.append(Pred("keyvalidate-exact", keyvalidate_pred, (tag, k)))
